@@ -3058,10 +3058,13 @@ class Transport(threading.Thread, ClosingContextManager):
         initial_window_size = m.get_int()
         max_packet_size = m.get_int()
         reject = False
+        # which of our client-side handlers (if any) takes the new channel
+        handler = None
         if (
             kind == "auth-agent@openssh.com"
             and self._forward_agent_handler is not None
         ):
+            handler = self._forward_agent_handler
             self._log(DEBUG, "Incoming forward agent connection")
             self.lock.acquire()
             try:
@@ -3069,6 +3072,7 @@ class Transport(threading.Thread, ClosingContextManager):
             finally:
                 self.lock.release()
         elif (kind == "x11") and (self._x11_handler is not None):
+            handler = self._x11_handler
             origin_addr = m.get_text()
             origin_port = m.get_int()
             self._log(
@@ -3083,6 +3087,7 @@ class Transport(threading.Thread, ClosingContextManager):
             finally:
                 self.lock.release()
         elif (kind == "forwarded-tcpip") and (self._tcp_handler is not None):
+            handler = self._tcp_handler
             server_addr = m.get_text()
             server_port = m.get_int()
             origin_addr = m.get_text()
@@ -3166,17 +3171,20 @@ class Transport(threading.Thread, ClosingContextManager):
         self._log(
             DEBUG, "Secsh channel {:d} ({}) opened.".format(my_chanid, kind)
         )
-        if kind == "auth-agent@openssh.com":
-            self._forward_agent_handler(chan)
+        # NOTE: a channel of one of these kinds that was *not* claimed by a
+        # handler above (server mode, application accepted it) is queued for
+        # accept() like any other.
+        if handler is None:
+            self._queue_incoming_channel(chan)
+        elif kind == "auth-agent@openssh.com":
+            handler(chan)
         elif kind == "x11":
-            self._x11_handler(chan, (origin_addr, origin_port))
-        elif kind == "forwarded-tcpip":
+            handler(chan, (origin_addr, origin_port))
+        else:
             chan.origin_addr = (origin_addr, origin_port)
-            self._tcp_handler(
+            handler(
                 chan, (origin_addr, origin_port), (server_addr, server_port)
             )
-        else:
-            self._queue_incoming_channel(chan)
 
     def _parse_debug(self, m):
         m.get_boolean()  # always_display
